@@ -68,7 +68,7 @@ def prog_lines(p):
         row = ["test", t["g"], t["n"], b(t["ign"])]
         for sets, ev in t["ph"]:
             row.append(",".join("%d:%d" % ((s["loc"], s["val"]) if isinstance(s, dict) else tuple(s)) for s in sets) or "-")
-            row.append(ev)
+            row.append(ev if isinstance(ev, str) else "/".join(ev))
         lines.append(row)
     lines.append(["run"])
     return lines
